@@ -29,7 +29,7 @@ import time
 from concurrent.futures import ThreadPoolExecutor
 
 from .. import tlc
-from ..core import Ctx, use_repo, VERIF
+from ..core import Ctx, use_repo
 from . import x02_real as R
 
 SPEC = 'spec/extra'
@@ -316,8 +316,8 @@ def run(tier, replay=None):
 
     # 1. the model: exhaustive check of the intended algorithm, the pinned variant, teeth
     jobs = {
-        'cond': lambda: export_cases('MC_CondReq_cond_%s.cfg' % tier, 6),
-        'cond_pinned': lambda: export_cases('HIST_CondReq_cond_pinned_%s.cfg' % tier, 6),
+        'cond': lambda: export_cases('MC_CondReq_cond_%s.cfg' % tier, 4 if quick else 8),
+        'cond_pinned': lambda: export_cases('HIST_CondReq_cond_pinned_%s.cfg' % tier, 4 if quick else 6),
         # action coverage is read from a small sample of every block (pinned variant: Crash is reachable there)
         'cov': lambda: tlc.run_tlc(SPEC, 'CondReq', 'MC_CondReq_cond_cov.cfg', workers=1, coverage=True, jvm_opts=JVM),
         'misc': lambda: export_cases('MC_CondReq_misc.cfg', 1, coverage=True),
